@@ -54,6 +54,10 @@ type tryFrame struct {
 	stash   *stash
 	privEnv *privateEnv
 
+	// vm.result at the time the 'finally' block was entered by leaveTry (holds the parked value of a pending
+	// 'return'); restored by leaveFinally so that a 'return' abandoned inside the 'finally' block cannot replace it
+	result Value
+
 	catchPos, finallyPos, finallyRet int32
 }
 
@@ -4808,6 +4812,7 @@ func (leaveTry) exec(vm *vm) {
 	tf := &vm.tryStack[len(vm.tryStack)-1]
 	if tf.finallyPos >= 0 {
 		tf.finallyRet = int32(vm.pc + 1)
+		tf.result = vm.result
 		vm.pc = int(tf.finallyPos)
 		tf.finallyPos = -1
 		tf.catchPos = -1
@@ -4831,14 +4836,18 @@ type leaveFinally struct{}
 
 func (leaveFinally) exec(vm *vm) {
 	tf := &vm.tryStack[len(vm.tryStack)-1]
-	ex, ret := tf.exception, tf.finallyRet
+	ex, ret, res := tf.exception, tf.finallyRet, tf.result
 	tf.exception = nil
+	tf.result = nil
 	vm.popTryFrame()
 	if ex != nil {
 		vm.throw(ex)
 		return
 	} else {
 		if ret != -1 {
+			if ret >= 0 {
+				vm.result = res
+			}
 			vm.pc = int(ret)
 		} else {
 			vm.pc++
